@@ -227,4 +227,84 @@ Section R.
       rewrite sin_asin in H by lra. lra. }
     lra.
   Qed.
+
+  (* ---------------------------------------------------------------- *)
+  (* angular_separation is the great-circle distance, for ALL right ascensions and
+     declinations (no range assumption: the haversine term is even and 2 pi periodic
+     in the RA difference, so the RA seam needs no special case)                     *)
+
+  Definition gc_dot (ra1 dec1 ra2 dec2 : R) : R :=
+    sin dec1 * sin dec2 + cos dec1 * cos dec2 * cos (ra1 - ra2).
+
+  Lemma sin2_half a : sin (a / 2) * sin (a / 2) = (1 - cos a) / 2.
+  Proof.
+    pose proof (cos_2a_sin (a / 2)) as H. replace (2 * (a / 2)) with a in H by field. lra.
+  Qed.
+
+  Lemma cos_Rabs a : cos (Rabs a) = cos a.
+  Proof. unfold Rabs. destruct (Rcase_abs a); [apply cos_neg|reflexivity]. Qed.
+
+  Lemma haversine_dot ra1 dec1 ra2 dec2 :
+    as_x N (as_delta_dec N dec1 dec2) dec1 dec2 (as_delta_ra N ra1 ra2)
+    = (1 - gc_dot ra1 dec1 ra2 dec2) / 2.
+  Proof.
+    rewrite K_as_x. destruct (K_as_delta dec1 dec2) as (_ & ->). destruct (K_as_delta ra1 ra2) as (-> & _).
+    rewrite !sin2_half, !cos_Rabs, cos_minus. unfold gc_dot. field.
+  Qed.
+
+  Lemma gc_dot_bound ra1 dec1 ra2 dec2 : -1 <= gc_dot ra1 dec1 ra2 dec2 <= 1.
+  Proof.
+    unfold gc_dot. set (c := cos (ra1 - ra2)).
+    pose proof (COS_bound (ra1 - ra2)) as Hc. fold c in Hc.
+    pose proof (sin2_cos2 dec1) as H1. pose proof (sin2_cos2 dec2) as H2. unfold Rsqr in H1, H2.
+    set (s1 := sin dec1) in *. set (s2 := sin dec2) in *. set (c1 := cos dec1) in *. set (c2 := cos dec2) in *.
+    assert (A : 0 <= (1 + c) * ((c1 - c2) * (c1 - c2))) by (apply Rmult_le_pos; [lra|apply Rle_0_sqr]).
+    assert (B : 0 <= (1 - c) * ((c1 + c2) * (c1 + c2))) by (apply Rmult_le_pos; [lra|apply Rle_0_sqr]).
+    assert (A' : 0 <= (1 + c) * ((c1 + c2) * (c1 + c2))) by (apply Rmult_le_pos; [lra|apply Rle_0_sqr]).
+    assert (B' : 0 <= (1 - c) * ((c1 - c2) * (c1 - c2))) by (apply Rmult_le_pos; [lra|apply Rle_0_sqr]).
+    pose proof (Rle_0_sqr (s1 - s2)) as Q1. pose proof (Rle_0_sqr (s1 + s2)) as Q2. unfold Rsqr in Q1, Q2.
+    split; nra.
+  Qed.
+
+  Theorem angsep_great_circle ra1 dec1 ra2 dec2 :
+    angsep N ra1 dec1 ra2 dec2 = acos (gc_dot ra1 dec1 ra2 dec2).
+  Proof.
+    unfold angsep. cbv zeta. rewrite haversine_dot.
+    set (g := gc_dot ra1 dec1 ra2 dec2). pose proof (gc_dot_bound ra1 dec1 ra2 dec2) as Hg. fold g in Hg.
+    set (x0 := (1 - g) / 2). assert (Hx : 0 <= x0 <= 1) by (unfold x0; lra).
+    destruct (K_as_clip x0) as (L1 & L2 & _). rewrite L1, L2.
+    destruct (Rltb x0 0) eqn:E0; [apply Rltb_true in E0; lra|].
+    destruct (K_as_clip x0) as (_ & _ & H1 & H2). rewrite H1, H2.
+    destruct (Rltb 1 x0) eqn:E1; [apply Rltb_true in E1; lra|].
+    rewrite K_as_psi.
+    pose proof (acos_bound g) as (T1 & T2). set (t := acos g) in *.
+    assert (Hc : cos t = g) by (apply cos_acos; lra).
+    assert (Hx0 : x0 = sin (t / 2) * sin (t / 2)) by (rewrite sin2_half, Hc; reflexivity).
+    assert (Hs : 0 <= sin (t / 2)) by (apply sin_ge_0; lra).
+    rewrite Hx0, sqrt_square by assumption. rewrite asin_sin by lra. field.
+  Qed.
+
+  (* consequences: symmetric, invariant under whole turns of either right ascension *)
+  Lemma angsep_turn ra1 dec1 ra2 dec2 (k : nat) :
+    angsep N (ra1 + 2 * INR k * PI) dec1 ra2 dec2 = angsep N ra1 dec1 ra2 dec2.
+  Proof.
+    rewrite !angsep_great_circle. unfold gc_dot.
+    replace (ra1 + 2 * INR k * PI - ra2) with (ra1 - ra2 + 2 * INR k * PI) by ring.
+    now rewrite cos_period.
+  Qed.
+
+  Lemma angsep_sym ra1 dec1 ra2 dec2 : angsep N ra1 dec1 ra2 dec2 = angsep N ra2 dec2 ra1 dec1.
+  Proof.
+    rewrite !angsep_great_circle. unfold gc_dot. f_equal.
+    replace (ra2 - ra1) with (- (ra1 - ra2)) by ring. rewrite cos_neg. ring.
+  Qed.
+
+  (* the AngErrOfPsi criterion (func(psi) = a psi + b) in closed form *)
+  Lemma angerr_crit_R a b fl sra sdec era edec err :
+    let psi := acos (gc_dot sra sdec era edec) in
+    angerr_crit N a b fl sra sdec era edec err = true <-> (a * psi + b <= err \/ psi < fl).
+  Proof.
+    cbv zeta. unfold angerr_crit. cbv zeta. rewrite K_ae_mask_psi, angsep_great_circle.
+    rewrite orb_true_iff, Rleb_true, Rltb_true. unfold N. num_R. tauto.
+  Qed.
 End R.
